@@ -7,7 +7,7 @@ import re
 import shutil
 from typing import Dict, List
 
-from .. import tlc, naming, cue
+from .. import tlc, naming, cue, cli
 from ..core import Check
 from .. import repo
 from ..writers import akai as aw, roland as rw
@@ -80,7 +80,9 @@ def run(chk: Check):
     chk.rule = ("TLC checks PathsPairwiseDistinct and ComponentCharset on every sequence of <= 3-4 sibling names (files with pairing, files "
                 "without pairing, directories) from pools containing separators, '..', quotes, control characters, names equal after "
                 "sanitising, generated-looking '(n)' names and stereo stems; sequences are placed at every directory level of real AKAI, "
-                "Roland and CDDA images, exported into a directory nested inside a sentinel, and every created file is judged")
+                "Roland and CDDA images, exported into a directory nested inside a sentinel, and every created file is judged; the command "
+                "line (spec/Cli.tla): every argument vector up to 3-5 tokens through the real main(), export vectors (-d in every "
+                "spelling and position, default destination) executed: files only under the destination, same files as the action called directly")
     k = 4 if thorough else 3
     budget = 500 if thorough else 40
     plans = [
@@ -131,6 +133,7 @@ def run(chk: Check):
                 def b(w):
                     return cue.write_pair(w, cue.render(lines, 0, seed), binlen, seed)[0]
                 export_and_judge(chk, key, b, [o + ".wav" for o in outs], "", label, payload)
+    cli.check(chk, "export")      # the destination reaches export through the command line as typed; nothing is written outside it (spec/Cli.tla)
     chk.exhaustive = True
     chk.sample({"cue_titles": ["../X", "a/b", "A"], "predicted_files": ["X.wav", "a b.wav", "A.wav"]})
     chk.assumptions += ["path components are judged with the property's own predicate (ASCII \\w); exact names are compared with the "
